@@ -136,7 +136,10 @@ where
 
         let last_chunk = (M - A..M)
             .map(|i| {
-                let is_end = ng.is_equal_to_fixed(layouter, &end, F::from(i as u64))?;
+                // `end` lies in (M - A, M], so it never equals M - A; the payload of a
+                // vector that fits in the last chunk does start there, though.
+                let limit = if i == M - A { &start } else { &end };
+                let is_end = ng.is_equal_to_fixed(layouter, limit, F::from(i as u64))?;
                 is_data = ng.xor(layouter, &[is_data.clone(), is_end])?;
                 Ok(is_data.clone())
             })
